@@ -1,1 +1,12 @@
-(* placeholder *)
+(* Extraction of the executable models of the bld family for the correspondence runner.
+   Directives: ExtrOcamlBasic only (bool, option, unit, list, prod, sumbool, sumor -> OCaml's).
+   string / ascii / nat stay the extracted inductive types.  No Extract Constant. *)
+Require Extraction.
+Require Import ExtrOcamlBasic.
+From PVBld Require Import Names Paths BoxCycle Pipeline.
+
+Extraction "model.ml"
+  display ident_token_ok rust_name emitted collides
+  related_path wrelated_path resolve_item
+  box_decisions is_nested
+  layout layout_pred generate_unique_name lower_message lower_message_pinned.
